@@ -633,6 +633,13 @@ func (n *Node) fastForward() error {
 	resp := n.getBestFastForwardResponse()
 	if resp == nil {
 		n.logger.Error("getBestFastForwardResponse returned nil => Babbling")
+		// the node carries on with what it already holds (possibly loaded from
+		// its database by bootstrap): new events must extend its own last event
+		n.coreLock.Lock()
+		if err := n.core.setHeadAndSeq(); err != nil {
+			n.logger.WithError(err).Error("Setting head and seq")
+		}
+		n.coreLock.Unlock()
 		n.transition(_state.Babbling)
 		return fmt.Errorf("getBestFastForwardResponse returned nil")
 	}
